@@ -95,7 +95,10 @@ var (
 
 // normStack removes addresses, pc offsets and goroutine ids: rapid only shrinks a failure whose message is
 // identical when the case is run again.
-func normStack(st string) string {
+func normStack(st string) string { return NormStack(st) }
+
+// NormStack removes addresses, pc offsets and goroutine ids from a stack dump.
+func NormStack(st string) string {
 	st = reArgs.ReplaceAllString(st, "(...)")
 	st = reOff.ReplaceAllString(st, "")
 	return reGo.ReplaceAllString(st, "goroutine N")
